@@ -3,6 +3,13 @@
 // httptest server) on generated batches.  Real time: alerts end an hour ago, in
 // an hour, or never, so their status cannot flip during a case; an upper-case
 // end token sets the alert's Timeout flag (EndsAt came from resolve_timeout).
+//
+//	webhookp <recvhex> <alerts>  -> trunc=0 <dump>
+//
+// `webhookp`: ONE webhook notifier per case, configured with a custom `payload` (a YAML list holding a
+// map, a template string and a nested list, decoded by the YAML decoder as the configuration loader
+// does); every webhookp of the case goes through that same notifier, with another batch.  The dump is
+// rebuilt from the rendered custom payload: it must describe the batch of that very notification.
 package tmpldata
 
 import (
@@ -23,6 +30,7 @@ import (
 	commoncfg "github.com/prometheus/common/config"
 	"github.com/prometheus/common/model"
 	"github.com/prometheus/common/promslog"
+	"gopkg.in/yaml.v2"
 
 	amcommoncfg "github.com/prometheus/alertmanager/config/common"
 	"github.com/prometheus/alertmanager/notify"
@@ -84,9 +92,64 @@ func dump(d *template.Data) string {
 }
 
 type world struct {
-	tmpl *template.Template
-	srv  *httptest.Server
-	last []byte
+	tmpl   *template.Template
+	srv    *httptest.Server
+	last   []byte
+	custom *webhook.Notifier // the case's notifier with a custom payload (created by the first webhookp)
+}
+
+// every rendered string starts with a letter and '=' so that the YAML re-parse of rendered strings in
+// template.DeepCopyWithTemplate always sees a plain string
+const customPayload = `
+- recv: 'R={{ .Receiver }}'
+  status: 'S={{ .Status }}'
+- 'A={{ range .Alerts }}{{ .Status }}|{{ range .Labels.SortedPairs }}{{ .Name }}:{{ .Value }},{{ end }}|{{ range .Annotations.SortedPairs }}{{ .Name }}:{{ .Value }},{{ end }};{{ end }}'
+- - 'L={{ range .CommonLabels.SortedPairs }}{{ .Name }}:{{ .Value }},{{ end }}'
+  - 'N={{ range .CommonAnnotations.SortedPairs }}{{ .Name }}:{{ .Value }},{{ end }}'
+- count: ['F={{ len .Alerts.Firing }}', 'Z={{ len .Alerts.Resolved }}']
+`
+
+func trimPairs(s string) string {
+	s = strings.TrimSuffix(s, ",")
+	if s == "" {
+		return "-"
+	}
+	return s
+}
+
+// customDump rebuilds the dump line from the rendered custom payload.
+func customDump(body []byte) string {
+	var p []any
+	if err := json.Unmarshal(body, &p); err != nil || len(p) != 4 {
+		return "badjson:" + hx.Hex(string(body))
+	}
+	str := func(v any, tag string) string {
+		s, _ := v.(string)
+		if !strings.HasPrefix(s, tag+"=") {
+			return "?" + hx.Hex(fmt.Sprint(v))
+		}
+		return s[len(tag)+1:]
+	}
+	m, _ := p[0].(map[string]any)
+	cm, _ := p[2].([]any)
+	cnt, _ := p[3].(map[string]any)
+	cl, _ := cnt["count"].([]any)
+	if m == nil || len(cm) != 2 || len(cl) != 2 {
+		return "badshape:" + hx.Hex(string(body))
+	}
+	var items []string
+	for _, it := range strings.Split(str(p[1], "A"), ";") {
+		if it == "" {
+			continue
+		}
+		f := strings.Split(it, "|")
+		if len(f) != 3 {
+			return "baditem:" + hx.Hex(it)
+		}
+		items = append(items, f[0]+"|"+trimPairs(f[1])+"|"+trimPairs(f[2]))
+	}
+	return fmt.Sprintf("trunc=0 recv=%s status=%s alerts=%s cl=%s ca=%s nf=%s nr=%s", hx.Hex(str(m["recv"], "R")), str(m["status"], "S"),
+		hx.Join(items, ";"), trimPairs(str(cm[0], "L")), trimPairs(str(cm[1], "N")), str(cl[0], "F"), str(cl[1], "Z"))
 }
 
 func (w *world) exec(line string) string {
@@ -125,6 +188,27 @@ func (w *world) exec(line string) string {
 			return "badjson:" + hx.Hex(err.Error())
 		}
 		return fmt.Sprintf("trunc=%d %s", msg.TruncatedAlerts, dump(msg.Data))
+	case "webhookp":
+		if w.custom == nil {
+			var payload any
+			if err := yaml.Unmarshal([]byte(customPayload), &payload); err != nil {
+				panic(err)
+			}
+			n, err := webhook.New(&webhook.WebhookConfig{URL: amcommoncfg.SecretTemplateURL(w.srv.URL), HTTPConfig: &commoncfg.HTTPClientConfig{}, Payload: payload},
+				w.tmpl, promslog.NewNopLogger())
+			if err != nil {
+				panic(err)
+			}
+			w.custom = n
+		}
+		ctx := notify.WithGroupKey(context.Background(), "gk")
+		ctx = notify.WithReceiverName(ctx, hx.Unhex(t[1]))
+		ctx = notify.WithGroupLabels(ctx, model.LabelSet{"g": "1"})
+		w.last = nil
+		if _, err := w.custom.Notify(ctx, parseAlerts(t[2])...); err != nil {
+			return "error:" + hx.Hex(err.Error())
+		}
+		return customDump(w.last)
 	}
 	panic("bad op " + line)
 }
@@ -200,6 +284,7 @@ func TestEngine(t *testing.T) {
 		for _, l := range s {
 			if strings.HasPrefix(l, "case ") {
 				tr.Linef("%s", l)
+				w.custom = nil
 				continue
 			}
 			do(l)
@@ -210,8 +295,14 @@ func TestEngine(t *testing.T) {
 	recvs := []string{"team", "r.1", "a+b(c)"}
 	for id := range hx.Cases(1500, 30000) {
 		tr.Linef("case %d", id)
+		w.custom = nil
 		as := genAlerts(r)
-		if r.IntN(3) == 0 {
+		if r.IntN(6) == 0 {
+			// two or three consecutive notifications with different batches through the case's one custom-payload notifier
+			for range 2 + r.IntN(2) {
+				do(fmt.Sprintf("webhookp %s %s", hx.Hex(hx.Pick(r, recvs)), genAlerts(r)))
+			}
+		} else if r.IntN(3) == 0 {
 			do(fmt.Sprintf("webhook %d %s %s", r.IntN(5), hx.Hex(hx.Pick(r, recvs)), as))
 		} else {
 			do(fmt.Sprintf("data %s 1 %s", hx.Hex(hx.Pick(r, recvs)), as))
